@@ -368,6 +368,21 @@ def extract_schedule_seq(trace):
             except (ValueError, KeyError):
                 continue
             sched.append({'thread': t, 'site': -2})
+    if not sched:
+        # sliced trace run: only the running sum of the markers is in the trace
+        prev = None
+        for s in trace:
+            if s.get('stepType') == 'assignment' and s.get('lhs') == 'vf_trace_vsum':
+                v = s.get('value') or {}
+                try:
+                    cur = int(v['binary'], 2) if v.get('binary') is not None else int(re.sub(r'[a-zA-Z]+$', '', v.get('data', '')))
+                except (ValueError, KeyError):
+                    continue
+                if prev is None or cur == prev:
+                    prev = cur      # (symbolic) start value
+                    continue
+                sched.append({'thread': (cur - prev - 1) & 0xffffffffffffffff, 'site': -2})
+                prev = cur
     return sched
 
 
